@@ -17,6 +17,11 @@ CLAIMED["C01"] = ("exploration",
  "Every hostile token string up to length 2 (quick) / 3 (thorough) over a 14-token core alphabet, and rapid-generated longer ones, is pushed through 18 escaped sinks (text, v-text, interpolated/bound/class/style attributes, v-for item, include props, slot props, layout variables, v-if/v-else on the sink element) in 9 static neighbourhoods written with character references and 7 enclosing constructs. The HTML5 parse of the output must have the same elements and attribute names as with a harmless word, the sink must contain exactly neighbours+value, and a canary variable in scope must never be printed. Exhaustive within the bound, sampled beyond.",
  "Trusts golang.org/x/net/html as the HTML5 parser. v-html and script/style bodies are exempt as documented; falsy bound values are left to C14; JSON-looking static include props are only checked for parse-equality and the canary.",
  "DESIGN.md §6 C01")
+CLAIMED["C02"] = ("exploration",
+ "rapid-generated parser-stable HTML trees with varied character-reference spellings and value holes; round-trip oracle: HTML5 parse(output) == HTML5 parse(template with holes textually substituted)",
+ "Generated fragments and full documents over block/inline/void/table/raw-text elements, attributes and text spelled with many character-reference variants are rendered through all seven entry points; the HTML5 parse of the output must equal the parse of the source (elements, attribute names and values, text, doctype; whitespace and comments aside). With holes, the expected tree is the parse of the source with each hole replaced by the escaped fmt.Sprint of its value; v-html output must contain its value verbatim and parse to the value's tree. Sampled, not exhaustive.",
+ "Trusts x/net/html parser+renderer (also used to filter to parser-stable sources). Whitespace at the ends of text runs and attribute values is treated as insignificant. <br> is an open known finding (serialised as <br></br>, pinned by the repository's fixtures) and excluded from generation.",
+ "DESIGN.md §6 C02")
 NOT_YET = "check under construction in this session; not claimed until it is built and silent on the unchanged tree"
 
 def main():
